@@ -222,10 +222,117 @@ fn evaluate_inner(plan: &Plan, out: &RunOut, obs: &mut Vec<Violation>) -> Vec<Vi
         }
     }
 
+    genuine_packet_rejected(p, pre, out, &mut vs);
+
     if p == "C18" {
         c18(plan, out, &mut vs);
     }
     vs
+}
+
+fn field_u64(txt: &str, key: &str) -> Option<u64> {
+    let i = txt.find(key)? + key.len();
+    let digits: String = txt[i..].chars().take_while(|c| c.is_ascii_digit()).collect();
+    digits.parse().ok()
+}
+
+/// packet identity from the receiver's `?packet` debug text (stream::decoder::Packet)
+fn parse_stream_reject(pk: &str) -> Option<link::PktId> {
+    let i = pk.find("id: 0x")? + 6;
+    let hex: String = pk[i..].chars().take_while(|c| c.is_ascii_hexdigit()).collect();
+    let cred = u128::from_str_radix(&hex, 16).ok()?;
+    Some(link::PktId {
+        kind: link::KIND_STREAM,
+        cred,
+        f: [
+            field_u64(pk, "key_id: VarInt(")?,
+            field_u64(pk, "stream_id: stream::Id { queue_id: VarInt(")?,
+            field_u64(pk, "packet_number: VarInt(")?,
+            field_u64(pk, "stream_offset: VarInt(")?,
+            field_u64(pk, "payload_len: ")?,
+            field_u64(pk, "header_len: ")?,
+        ],
+    })
+}
+
+/// Per-packet statement: a datagram the link delivered unmodified must never be rejected by its
+/// receiver for an authentication/decryption failure.  The receivers report such failures per
+/// packet (stream: `debug!(non_fatal_error, ?packet)`; control: `stream_control_packet_received
+/// { is_authenticated: false }`).  A failure is attributed by the packet's header identity, not by
+/// time: every forged/mutated/tainted datagram delivered in the run accounts for one failure of
+/// the identity its bytes parse to; a failure beyond that, for an identity that a genuine
+/// delivered datagram carries, is a genuine packet rejected.  Duplicates, packets of finished
+/// streams, replays and out-of-window key ids are reported by the receiver under other error
+/// kinds and are not counted.
+fn genuine_packet_rejected(p: &str, pre: &str, out: &RunOut, vs: &mut Vec<Violation>) {
+    if out.log_truncated {
+        return;
+    }
+    let mut forged: BTreeMap<link::PktId, u64> = BTreeMap::new();
+    let mut genuine: BTreeMap<link::PktId, u64> = BTreeMap::new();
+    let mut retx: std::collections::BTreeSet<link::PktId> = Default::default();
+    for r in &out.log {
+        if r.fate != FATE_DELIVERED || r.t_deliver_ns == 0 {
+            continue;
+        }
+        if let Some(id) = r.pkt {
+            *(if r.label == LABEL_FORGED { &mut forged } else { &mut genuine }).entry(id).or_insert(0) += 1;
+            if r.label != LABEL_FORGED && r.retx {
+                retx.insert(id);
+            }
+        }
+    }
+    let mut fails: BTreeMap<link::PktId, (u64, String)> = BTreeMap::new();
+    for (err, pk) in &out.app.rejects.stream {
+        if !err.contains("could not decrypt packet") {
+            continue;
+        }
+        if let Some(id) = parse_stream_reject(pk) {
+            let e = fails.entry(id).or_insert((0, err.clone()));
+            e.0 += 1;
+        }
+    }
+    for (pn, len, cd) in &out.app.rejects.control {
+        let id = link::PktId { kind: link::KIND_CONTROL, cred: 0, f: [*pn, *len, *cd, 0, 0, 0] };
+        let e = fails.entry(id).or_insert((0, "control packet failed authentication".into()));
+        e.0 += 1;
+    }
+    let mut hits = vec![];
+    for (id, (n, err)) in &fails {
+        let nf = forged.get(id).copied().unwrap_or(0);
+        let ng = genuine.get(id).copied().unwrap_or(0);
+        if *n > nf && ng > 0 {
+            hits.push((*id, *n, nf, ng, err.clone()));
+        }
+    }
+    for (kind, want_retx) in [(link::KIND_STREAM, false), (link::KIND_STREAM, true), (link::KIND_CONTROL, false)] {
+        let of_kind: Vec<_> = hits.iter().filter(|h| h.0.kind == kind && retx.contains(&h.0) == want_retx).collect();
+        if let Some((id, n, nf, ng, err)) = of_kind.first() {
+            let what = if kind == link::KIND_STREAM {
+                format!(
+                    "stream packet credentials {:#x}/{} queue {} pn {} offset {} payload_len {}",
+                    id.cred, id.f[0], id.f[1], id.f[2], id.f[3], id.f[4]
+                )
+            } else {
+                format!("control packet pn {} len {} control_data_len {}", id.f[0], id.f[1], id.f[2])
+            };
+            vs.push(v(
+                p,
+                &format!("{pre}.genuine_packet_rejected"),
+                format!(
+                    "{} genuine packet identities rejected; first: {what}: {n} authentication failure(s) reported by the receiver ({err}) but only {nf} forged datagram(s) with that identity were delivered ({ng} genuine delivered)",
+                    of_kind.len()
+                ),
+                if kind == link::KIND_CONTROL {
+                    "control_auth_failed_for_genuine_packet"
+                } else if want_retx {
+                    "decrypt_failed_for_genuine_retransmission"
+                } else {
+                    "decrypt_failed_for_genuine_packet"
+                },
+            ));
+        }
+    }
 }
 
 fn ev(out: &RunOut, name: &str) -> u64 {
@@ -388,6 +495,9 @@ pub fn summarize(plan: &Plan, out: &RunOut) -> Summary {
     pr("cap_extended", out.cap_extended as u64);
     pr("forged_delivered", out.stats.forged_delivered);
     pr("forged_noop_mutation", out.stats.forged_noop);
+    pr("stream_packet_rejected_at_decrypt", out.app.rejects.stream.iter().filter(|(e, _)| e.contains("could not decrypt packet")).count() as u64);
+    pr("control_packet_rejected_at_authentication", out.app.rejects.control.len() as u64);
+    pr("key_phase_flip_delivered", out.log.iter().filter(|r| r.label == LABEL_FORGED && r.t_deliver_ns > 0 && r.note.as_deref().map_or(false, |n| n.starts_with("flip Tag pos 0/") && n.contains("xor 0x01 of stream"))).count() as u64);
     pr("forged_before_first_genuine_of_flow", out.stats.forged_first_flight);
     pr("forged_ups_with_identical_authenticated_part", out.stats.equiv_ups_delivered);
     pr("genuine_ups_for_known_id_delivered", out.stats.genuine_ups_known_id);
